@@ -413,6 +413,505 @@ let handle_solve line =
     end
   | _ -> failwith ("bad SOLVE line: " ^ line)
 
+(* ==== ITER stage: the Newton iteration of solve_with_inequality against the extracted model (C04_Iter_Defs) ================== *)
+(* per ITER line (one pass of the loop, observed through the values hook): (a) the recorded (dx, dv) solves the model's reduced
+   system [lmat (dx,dv) = lvec] within 1e-9 of the summed magnitudes (cancellation in G x - h included; systems beyond that are
+   counted, not compared); (b) du, s0*smax, the two stage counters and step lengths, the exit kind, the new state, eta, residual
+   and status are recomputed by [iter_core] on the implementation's own numbers (bit-exact mirrors for scalar double code, exact
+   decisions unless within rounding of their thresholds: those are counted as ambiguous); (c) the proved properties are evaluated
+   on the implementation's numbers by code that does not use the model (Zarith Q): PROPFAIL. *)
+let it_events = ref 0 and it_solves = ref 0 and it_sys_ok = ref 0 and it_sys_bad = ref 0 and it_ambig = ref 0 and it_full = ref 0
+let it_exact_counts = ref 0 and it_bits = ref 0 and it_prop = ref 0 and it_skipped = ref 0 and it_status_dec = ref 0
+let it_rounding_feas = ref 0 and it_reverted = ref 0 and it_stale3 = ref 0 and it_start = ref 0 and it_final = ref 0
+let it_worst_sys = ref 0.0
+let it_sys_regular = ref 0
+let it_rejected = ref 0 and it_underflow = ref 0 and it_boundary = ref 0 and it_budget = ref 0
+let it_exits = Array.make 6 0
+let it_amb_kinds = Hashtbl.create 8
+let amb what = incr it_ambig; Hashtbl.replace it_amb_kinds what (1 + (try Hashtbl.find it_amb_kinds what with Not_found -> 0))
+
+type iprog = { ip_id : string; ip_n : int; ip_m : int; ip_p : int; ip_prog : program; ip_mufx : q; ip_maxls : int; ip_maxit : int;
+               ip_eps : float; ip_eps0 : float; ip_Q : float array array; ip_c : float array; ip_A : float array array; ip_b : float array;
+               ip_G : float array array; ip_h : float array; ip_x0 : float list }
+let cur_prog : iprog option ref = ref None
+let prev_eta : q option ref = ref None
+let prev_status = ref 0
+let last_event : (int * float list * float list * float list * float * int * resid option) option ref = ref None
+
+let arr2 m = Array.of_list (List.map Array.of_list m)
+let zbig = B.big_int_of_int
+let dbl_max = q_of_float max_float
+let qsqrt_f (x : q) = sqrt (Float.max 0.0 (float_of_q x))
+let rel_close (a : q) (b : float) (rel : float) =
+  let d = qabs (a -/ q_of_float b) in qle d (q_of_float (rel *. fabs b)) || (b = 0.0 && qeq_bool a qz)
+let fnorm2 a = sqrt (Array.fold_left (fun s t -> s +. t *. t) 0.0 a)
+
+(* summed magnitudes (tolerances only): |G_k| |x| + |h_k| per row, kappa_k = that / |G_k x - h_k| *)
+let row_mag (row : float array) (x : float array) = let s = ref 0.0 in Array.iteri (fun j g -> s := !s +. fabs (g *. x.(j))) row; !s
+let gxh_terms ip x = Array.mapi (fun k row -> row_mag row x +. fabs ip.ip_h.(k)) ip.ip_G
+let mag_resid ip (x : float array) (u : float array) (v : float array) (miu : float) =
+  let n = ip.ip_n and m = ip.ip_m and p = ip.ip_p in
+  let gt = gxh_terms ip x in
+  let eta_mag = let s = ref 0.0 in Array.iteri (fun k t -> s := !s +. fabs u.(k) *. t) gt; !s in
+  let rd = Array.init n (fun i ->
+      (if Array.length ip.ip_Q = 0 then 0.0 else row_mag ip.ip_Q.(i) x) +. fabs ip.ip_c.(i)
+      +. (let s = ref 0.0 in for l = 0 to p - 1 do s := !s +. fabs (ip.ip_A.(l).(i) *. v.(l)) done; !s)
+      +. (let s = ref 0.0 in for k = 0 to m - 1 do s := !s +. fabs (ip.ip_G.(k).(i) *. u.(k)) done; !s)) in
+  let rp = Array.init p (fun l -> row_mag ip.ip_A.(l) x +. fabs ip.ip_b.(l)) in
+  let rc = Array.init m (fun k -> eta_mag /. (miu *. float_of_int m) +. fabs u.(k) *. gt.(k)) in
+  (eta_mag, rd, rp, rc)
+let mag_total (_, rd, rp, rc) = sqrt (fnorm2 rd ** 2.0 +. fnorm2 rp ** 2.0 +. fnorm2 rc ** 2.0)
+
+(* bit-exact mirror of make_smax / `s0 * make_smax(u, du)` (scalar double code) *)
+let f_make_smax (u : float array) (du : float array) =
+  let smax = ref max_float in
+  Array.iteri (fun i d -> if d < 0.0 then smax := Float.min !smax (-. u.(i) /. d)) du;
+  Float.min !smax 1.0
+
+let zq_vec l = Array.of_list (List.map Q.of_float l)
+let zq_mat m = Array.map (fun r -> Array.map Q.of_float r) m
+let zdot (a : Q.t array) (b : Q.t array) = let s = ref Q.zero in Array.iteri (fun i t -> s := Q.add !s (Q.mul t b.(i))) a; !s
+
+let handle_iprog line =
+  let lp = Array.of_list (split_str " | " line) in
+  if Array.length lp < 9 then failwith "bad IPROG line";
+  let toks = split ' ' (String.trim lp.(0)) in
+  let id = List.nth toks 1 in
+  let hdr = List.map kv toks in
+  let geti k = int_of_string (List.assoc k hdr) and getf k = parse_float (List.assoc k hdr) in
+  let n = geti "n" and m = geti "m" and p = geti "p" and q = geti "q" in
+  let mufx = parse_float (String.trim lp.(1)) in
+  let fQ = fmat lp.(2) and fc = fvec lp.(3) and fA = fmat lp.(4) and fb = fvec lp.(5) and fG = fmat lp.(6) and fh = fvec lp.(7) and fx0 = fvec lp.(8) in
+  if List.length fc <> n || List.length fA <> p || List.length fG <> m || List.length fh <> m || List.length fb <> p || (q = 1 && List.length fQ <> n) || (q = 0 && fQ <> []) then
+    failwith "bad IPROG sizes";
+  let prog = { pQ = qmat fQ; pc = qvec fc; pA = qmat fA; pb = qvec fb; pG = qmat fG; ph = qvec fh } in
+  incr it_solves;
+  cur_prog := Some { ip_id = id; ip_n = n; ip_m = m; ip_p = p; ip_prog = prog; ip_mufx = q_of_float mufx; ip_maxls = geti "maxls"; ip_maxit = geti "maxit";
+                     ip_eps = getf "eps"; ip_eps0 = getf "eps0"; ip_Q = arr2 fQ; ip_c = Array.of_list fc; ip_A = arr2 fA; ip_b = Array.of_list fb;
+                     ip_G = arr2 fG; ip_h = Array.of_list fh; ip_x0 = fx0 };
+  prev_eta := None; prev_status := 0; last_event := None
+
+let mk_par ip miu alpha beta s0 =
+  { p_s0 = q_of_float s0; p_miu = q_of_float miu; p_alpha = q_of_float alpha; p_beta = q_of_float beta; p_eps = q_of_float ip.ip_eps;
+    p_eps0 = q_of_float ip.ip_eps0; p_eps2 = !eps2; p_maxls = zbig ip.ip_maxls; p_big = dbl_max }
+
+(* is the decision of done() on these numbers within rounding of one of its thresholds? *)
+let done_ambiguous ip (x : float array) (eta : float) (nrd : float) (nrp : float) (mags : float * float array * float array * float array) =
+  let (em, rd, rp, _) = mags in
+  let near a e mag = fabs (a -. e) <= 1e-9 *. e +. 1e-13 *. mag in
+  let gt = gxh_terms ip x in
+  let mg = ref neg_infinity and mgband = ref false in
+  Array.iteri (fun k row -> let t = (let s = ref 0.0 in Array.iteri (fun j g -> s := !s +. g *. x.(j)) row; !s) -. ip.ip_h.(k) in
+                if t > !mg then mg := t;
+                if fabs (t -. !feps2) <= 1e-3 *. !feps2 +. 1e-12 *. gt.(k) then mgband := true) ip.ip_G;
+  let neq = fnorm2 (Array.mapi (fun l row -> (let s = ref 0.0 in Array.iteri (fun j a -> s := !s +. a *. x.(j)) row; !s) -. ip.ip_b.(l)) ip.ip_A) in
+  near eta ip.ip_eps em || near nrd ip.ip_eps (fnorm2 rd) || near nrp ip.ip_eps (fnorm2 rp)
+  || (ip.ip_p > 0 && fabs (neq -. !feps2) <= 1e-3 *. !feps2 +. 1e-12 *. fnorm2 rp) || !mgband
+
+let handle_iter line =
+  let ip = match !cur_prog with Some ip -> ip | None -> failwith "ITER without IPROG" in
+  let lp = Array.of_list (split_str " | " line) in
+  if Array.length lp < 16 then failwith "bad ITER line";
+  let toks = split ' ' (String.trim lp.(0)) in
+  let id = List.nth toks 1 ^ "/" ^ List.nth toks 2 in
+  if List.nth toks 1 <> ip.ip_id then failwith "ITER id does not match IPROG";
+  let kidx = int_of_string (List.nth toks 2) in
+  let exitk = int_of_string (List.assoc "exit" (List.map kv toks)) in
+  let (sinit, s1, s2, it1, it2, r0) = match fvec lp.(1) with [a; b; c; d; e; f] -> (a, b, c, int_of_float d, int_of_float e, f) | _ -> failwith "bad step block" in
+  let (miu, alpha, beta, s0) = match fvec lp.(2) with [a; b; c; d] -> (a, b, c, d) | _ -> failwith "bad parameter block" in
+  let x = fvec lp.(3) and u = fvec lp.(4) and v = fvec lp.(5) and rd = fvec lp.(6) and rc = fvec lp.(7) and rp = fvec lp.(8) in
+  let dx = fvec lp.(9) and du = fvec lp.(10) and dv = fvec lp.(11) and x' = fvec lp.(12) and u' = fvec lp.(13) and v' = fvec lp.(14) in
+  let (eta', res', status') = match fvec lp.(15) with [a; b; c] -> (a, b, int_of_float c) | _ -> failwith "bad tail block" in
+  let n = ip.ip_n and m = ip.ip_m and p = ip.ip_p in
+  if List.length x <> n || List.length u <> m || List.length v <> p || List.length rd <> n || List.length rc <> m || List.length rp <> p
+     || List.length dx <> n || List.length du <> m || List.length dv <> p || List.length x' <> n || List.length u' <> m || List.length v' <> p then
+    failwith "bad ITER sizes";
+  incr it_events;
+  if exitk >= 0 && exitk <= 5 then it_exits.(exitk) <- it_exits.(exitk) + 1;
+  let prog = ip.ip_prog in
+  let par = mk_par ip miu alpha beta s0 in
+  let ax = Array.of_list x and au = Array.of_list u and av = Array.of_list v and adx = Array.of_list dx and adu = Array.of_list du and adv = Array.of_list dv in
+  let ax' = Array.of_list x' and au' = Array.of_list u' and av' = Array.of_list v' in
+  let all_fin = List.for_all finite_vec [x; u; v; rd; rc; rp] in
+  let dir_fin = List.for_all finite_vec [dx; du; dv] in
+  let after_fin = List.for_all finite_vec [x'; u'; v'] && Float.is_finite eta' && Float.is_finite res' in
+  let propfail what detail = incr it_prop; report "PROPFAIL" ("iter-" ^ what) id detail in
+  let mism what detail = report "MISMATCH" ("iter-" ^ what) id detail in
+  (* ---- (c0) status / exit discipline (no arithmetic) ------------------------------------------------------------------ *)
+  if status' = 1 && not (exitk = 1 || exitk = 2 || exitk = 3 || exitk = 5) then propfail "converged-without-done" (Printf.sprintf "exit=%d status=converged" exitk);
+  if exitk = 4 && status' <> 2 then propfail "nonfinite-not-failed" (Printf.sprintf "status=%d" status');
+  if exitk = 0 && status' <> !prev_status then propfail "status-changed-without-exit" (Printf.sprintf "status=%d" status');
+  if exitk = 1 || exitk = 2 || exitk = 3 then begin
+    if not (x' = x && u' = u && v' = v) then propfail "state-moved-on-failed-step" (Printf.sprintf "exit=%d" exitk)
+  end;
+  let tiny t = t <> 0.0 && fabs t < 1e-280 in
+  let underflow = List.exists tiny u || List.exists tiny u' || (exitk <> 1 && exitk <> 2 && r0 < 1e-150) || tiny eta' || tiny res' || List.exists (fun t -> t = 0.0) u in
+  if not all_fin then begin incr it_skipped; prev_eta := None end
+  else if underflow then begin
+    (* denormal range (e.g. epsilon = 0: the loop runs on until the multipliers underflow): outside the rational model *)
+    incr it_underflow; prev_eta := None; last_event := Some (exitk, x', u', v', eta', status', None)
+  end
+  else begin
+    let qx = qvec x and qu = qvec u and qv = qvec v and qrd = qvec rd and qrc = qvec rc and qrp = qvec rp in
+    let eta_before = match !prev_eta with Some e -> e | None -> m_eta prog qx qu in
+    let res_before = { s_fx = qz; s_eta = eta_before; s_rdual = qrd; s_rprim = qrp; s_rcent = qrc } in
+    let st = { i_x = qx; i_u = qu; i_v = qv; i_res = res_before; i_status = zbig !prev_status } in
+    let gt = gxh_terms ip ax in
+    let zG = zq_mat ip.ip_G and zh = Array.map Q.of_float ip.ip_h and zA = zq_mat ip.ip_A and zb = Array.map Q.of_float ip.ip_b in
+    let zx = zq_vec x and zx' = zq_vec x' in
+    let zgxh zxx = Array.mapi (fun k row -> Q.sub (zdot row zxx) zh.(k)) zG in
+    let gx = zgxh zx in
+    let fgx = Array.map Q.to_float gx in
+    let on_boundary = (let b = ref false in Array.iteri (fun k t -> if fabs t <= 0x1p-40 *. gt.(k) then b := true) fgx; !b) in
+    let over_budget = (it2 + it1 + 2) * (m + 1) * (n + m + p) * (m + 4) > 400000 in
+    let kap = Array.mapi (fun k t -> gt.(k) /. (fabs t +. 1e-300)) fgx in
+    (* ---- (c1) invariants on the implementation's numbers: strict feasibility and u > 0 before and after ---------------- *)
+    let strict tag zxx terms =
+      Array.iteri (fun k t -> if Q.sign t >= 0 then begin
+                       if fabs (Q.to_float t) <= 0x1p-44 *. terms.(k) then incr it_rounding_feas
+                       else propfail ("strict-feasibility-" ^ tag) (Printf.sprintf "row=%d (G x - h)=%g >= 0 terms=%g exit=%d" k (Q.to_float t) terms.(k) exitk) end) (zgxh zxx) in
+    if kidx = 0 then strict "start" zx gt;
+    if after_fin then strict "after" zx' (gxh_terms ip ax');
+    if kidx = 0 && List.exists (fun t -> not (t > 0.0)) u then propfail "u-positive-start" (Printf.sprintf "min(u)=%h" (List.fold_left Float.min infinity u));
+    if after_fin && List.exists (fun t -> not (t > 0.0)) u' then propfail "u-positive" (Printf.sprintf "min(u')=%h exit=%d s=%h" (List.fold_left Float.min infinity u') exitk s2);
+    if after_fin && (exitk = 0 || exitk = 5) && not (eta' > 0.0) then begin
+      (* the surrogate gap evaluated exactly at the recorded point: a non-positive double is a failure unless the exact value is
+         positive or negative at rounding level only (a row of G x' - h evaluates to +1 ulp: `strict_feasibility_at_rounding`) *)
+      let zu' = zq_vec u' and g' = zgxh zx' and t' = gxh_terms ip ax' in
+      let ex = ref Q.zero and mag = ref 0.0 in
+      Array.iteri (fun k t -> ex := Q.sub !ex (Q.mul zu'.(k) t); mag := !mag +. fabs au'.(k) *. t'.(k)) g';
+      if (Q.sign !ex = 0 && eta' = 0.0) || (Q.sign !ex < 0 && fabs (Q.to_float !ex) > 0x1p-44 *. !mag) then
+        propfail "eta-positive" (Printf.sprintf "eta'=%h exact=%g" eta' (Q.to_float !ex))
+      else incr it_rounding_feas
+    end;
+    (* ---- stored residuals are those of the current point (update() at (x,u,v)) ----------------------------------------- *)
+    let mg_before = mag_resid ip ax au av miu in
+    let (em_b, rdm_b, rpm_b, rcm_b) = mg_before in
+    let fresh = upd prog ip.ip_mufx par.p_miu qx qu qv res_before in
+    let cmpv what (a : q list) (b : float list) (mag : float array) tolrel =
+      List.iteri (fun i (am, bi) -> incr compared;
+                   let d = qabs (am -/ q_of_float bi) in
+                   if not (qle d (q_of_float (tolrel *. mag.(i) +. 1e-300))) then
+                     mism what (Printf.sprintf "[%d] model=%h impl=%h |diff|=%g summed=%g exit=%d" i (float_of_q am) bi (float_of_q d) mag.(i) exitk)) (List.combine a b) in
+    cmpv "stored-rdual" fresh.s_rdual rd rdm_b 1e-11;
+    cmpv "stored-rprim" fresh.s_rprim rp rpm_b 1e-11;
+    cmpv "stored-rcent" fresh.s_rcent rc rcm_b 1e-11;
+    (match !prev_eta with None -> () | Some e -> incr compared;
+      if not (qle (qabs (e -/ fresh.s_eta)) (q_of_float (1e-11 *. em_b +. 1e-300))) then mism "stored-eta" (Printf.sprintf "model=%h impl=%h" (float_of_q fresh.s_eta) (float_of_q e)));
+    if kidx = 0 then begin
+      (* the start of the iteration: u = -1 / (G x0 - h), v = 0 *)
+      incr it_start;
+      (match iter_start prog ip.ip_mufx par (qvec ip.ip_x0) with
+       | None ->
+         (* exact max(G x0 - h) >= 0 while the double evaluation was negative: only at rounding level *)
+         let worst = ref false in
+         Array.iteri (fun k t -> if Q.sign t >= 0 && fabs (Q.to_float t) > 0x1p-44 *. gt.(k) then worst := true) gx;
+         if !worst then mism "start" "the model rejects the starting point (max(G x0 - h) >= 0) but the loop was entered" else incr it_boundary
+       | Some st0 ->
+         if x <> ip.ip_x0 then mism "start-x" "the first iterate is not x0";
+         cmpv "start-u" st0.i_u u (Array.mapi (fun k t -> (1.0 +. kap.(k)) /. fabs t) fgx) 1e-11;
+         if List.exists (fun t -> t <> 0.0) v then mism "start-v" "v0 is not zero")
+    end;
+    if exitk = 1 || not dir_fin then begin
+      (* unstable system: the state is left as it is and done() decides on the stored numbers *)
+      incr it_skipped;
+      if exitk <> 1 then mism "exit-kind" (Printf.sprintf "non-finite direction but exit=%d" exitk)
+    end else if on_boundary || over_budget then begin
+      (* an inequality holds with equality within 2^-40 of its terms (G x - h is rounding: u / (G x - h) is not comparable), or
+         the exact recomputation of this pass is too expensive (many trials on a large program): counted, not compared *)
+      if on_boundary then incr it_boundary else incr it_budget;
+      last_event := Some (exitk, x', u', v', eta', status', None)
+    end else begin
+      let qdx = qvec dx and qdu = qvec du and qdv = qvec dv in
+      (* ---- (a) the oracle answer solves the model's reduced system ---------------------------------------------------- *)
+      let w = Array.mapi (fun k t -> fabs (au.(k) /. t) *. (1.0 +. kap.(k))) fgx in
+      let rcw = Array.mapi (fun k t -> fabs (Array.of_list rc).(k) /. fabs t *. (1.0 +. kap.(k))) fgx in
+      let gdx_mag = Array.map (fun row -> row_mag row adx) ip.ip_G in
+      let top_mag = Array.init n (fun i ->
+          (if Array.length ip.ip_Q = 0 then 0.0 else row_mag ip.ip_Q.(i) adx)
+          +. (let s = ref 0.0 in for k = 0 to m - 1 do s := !s +. fabs ip.ip_G.(k).(i) *. (w.(k) *. gdx_mag.(k) +. rcw.(k)) done; !s)
+          +. (let s = ref 0.0 in for l = 0 to p - 1 do s := !s +. fabs (ip.ip_A.(l).(i) *. adv.(l)) done; !s)
+          +. fabs (List.nth rd i)) in
+      let bot_mag = Array.init p (fun l -> row_mag ip.ip_A.(l) adx +. fabs (List.nth rp l)) in
+      (* the LDLT is backward stable norm-wise: the residual is measured against the largest row magnitude *)
+      let scale = Float.max (Array.fold_left Float.max 0.0 top_mag) (Array.fold_left Float.max 0.0 bot_mag) in
+      let sres = sys_residual prog qx qu qrd qrc qrp qdx qdv in
+      let sys_ratio = ref 0.0 in
+      if List.length sres <> n + p then mism "system-size" (Printf.sprintf "model %d rows, n+p=%d" (List.length sres) (n + p))
+      else List.iteri (fun i t -> let r = fabs (float_of_q t) /. (scale +. 1e-300) in if r > !sys_ratio then sys_ratio := r) sres;
+      let sys_ok = !sys_ratio <= 1e-9 in
+      (* Eigen's LDLT pivots on the original diagonal and is only reliable here when the block Q - hessvar is positive definite
+         (a variable in no inequality row and without curvature gives a zero pivot: the factorisation fails, info() is not
+         looked at by the solver): the block is factorised exactly (LDL' over Q, own code); a regular system must be solved *)
+      let regular =
+        (* exact LDL' of the whole matrix in the natural order: n positive pivots (Q - hessvar positive definite), then p negative
+           ones (the Schur complement -A K^-1 A': A has full row rank), none smaller than 1e-6 of the largest entry of the matrix
+           (of the largest diagonal entry of the Schur complement for the last p) *)
+        let np = n + p in
+        let k = Array.of_list (List.map (fun row -> Array.of_list (List.map zq row)) (lmat prog qx qu)) in
+        let ok = ref (Array.length k = np && Array.for_all (fun r -> Array.length r = np) k) in
+        if !ok then begin
+          let dmax = ref 0.0 in
+          Array.iter (fun row -> Array.iter (fun t -> dmax := Float.max !dmax (fabs (Q.to_float t))) row) k;
+          (try
+             for c = 0 to np - 1 do
+               if c = n then begin dmax := 0.0; for i = n to np - 1 do dmax := Float.max !dmax (fabs (Q.to_float k.(i).(i))) done end;
+               let d = k.(c).(c) in
+               let fd = Q.to_float d in
+               if not ((if c < n then fd else -. fd) > 1e-6 *. !dmax) then begin ok := false; raise Exit end;
+               for i = c + 1 to np - 1 do
+                 let f = Q.div k.(i).(c) d in
+                 if Q.sign f <> 0 then for j = c to np - 1 do k.(i).(j) <- Q.sub k.(i).(j) (Q.mul f k.(c).(j)) done
+               done
+             done
+           with Exit -> ())
+        end;
+        !ok in
+      if sys_ok then incr it_sys_ok
+      else if regular then mism "system" (Printf.sprintf "the recorded (dx, dv) does not solve the model's reduced system [[Q - G' diag(u/(Gx-h)) G, A'],[A, 0]] (dx, dv) = -(rdual + G' (rcent/(Gx-h)), rprim): relative residual %g (Q - hessvar positive definite, A of full row rank: exact LDL' with pivots above 1e-6)" !sys_ratio)
+      else begin incr it_sys_bad; if !sys_ratio > !it_worst_sys then it_worst_sys := !sys_ratio end;
+      if regular then incr it_sys_regular;
+      (* ---- (b) du ----------------------------------------------------------------------------------------------------------- *)
+      let du_m = back_subst prog qx qu qrc qdx in
+      let du_mag = Array.mapi (fun k t -> (fabs (List.nth rc k) +. fabs au.(k) *. gdx_mag.(k)) *. (1.0 +. kap.(k)) /. fabs t) fgx in
+      cmpv "du" du_m du du_mag 1e-10;
+      (* ---- (c2) Newton system and residual contraction on the implementation's own numbers (own arithmetic) ------------ *)
+      let zu = zq_vec u and zv = zq_vec v and zdx = zq_vec dx and zdu = zq_vec du and zdv = zq_vec dv and zrd = zq_vec rd and zrc = zq_vec rc and zrp = zq_vec rp in
+      let zQ = zq_mat ip.ip_Q and zc = Array.map Q.of_float ip.ip_c in
+      if sys_ok || regular then begin
+        (* row block 2: -u .* (G dx) - (G x - h) .* du = -rcent *)
+        for k = 0 to m - 1 do
+          let t = Q.add (Q.add (Q.mul zu.(k) (zdot zG.(k) zdx)) (Q.mul gx.(k) zdu.(k))) (Q.neg zrc.(k)) in
+          let mag = (fabs au.(k) *. gdx_mag.(k) +. fabs (fgx.(k) *. adu.(k)) +. fabs (List.nth rc k)) *. (1.0 +. kap.(k)) in
+          if fabs (Q.to_float t) > 1e-9 *. mag +. 1e-300 then propfail "newton-centrality" (Printf.sprintf "row=%d residual=%g summed=%g" k (Q.to_float t) mag)
+        done;
+        (* row block 1: Q dx + G' du + A' dv = -rdual ; row block 3: A dx = -rprim *)
+        for i = 0 to n - 1 do
+          let t = ref zrd.(i) in
+          if Array.length zQ > 0 then t := Q.add !t (zdot zQ.(i) zdx);
+          for k = 0 to m - 1 do t := Q.add !t (Q.mul zG.(k).(i) zdu.(k)) done;
+          for l = 0 to p - 1 do t := Q.add !t (Q.mul zA.(l).(i) zdv.(l)) done;
+          let mag = top_mag.(i) +. (let s = ref 0.0 in for k = 0 to m - 1 do s := !s +. fabs (ip.ip_G.(k).(i) *. adu.(k)) *. (1.0 +. kap.(k)) done; !s) in
+          if fabs (Q.to_float !t) > 2e-9 *. (mag +. scale) +. 1e-300 then propfail "newton-dual" (Printf.sprintf "row=%d residual=%g summed=%g" i (Q.to_float !t) mag)
+        done;
+        for l = 0 to p - 1 do
+          let t = Q.add (zdot zA.(l) zdx) zrp.(l) in
+          if fabs (Q.to_float t) > 2e-9 *. (bot_mag.(l) +. scale) +. 1e-300 then propfail "newton-primal" (Printf.sprintf "row=%d residual=%g summed=%g" l (Q.to_float t) bot_mag.(l))
+        done;
+        if (exitk = 0 || exitk = 5) && after_fin then begin
+          let zs = Q.of_float s2 in
+          let one_s = Q.sub Q.one zs in
+          (* rprim(x + s dx) = (1 - s) rprim(x), both sides evaluated exactly at the recorded points *)
+          for l = 0 to p - 1 do
+            let a = Q.sub (zdot zA.(l) zx') zb.(l) and b = Q.mul one_s (Q.sub (zdot zA.(l) zx) zb.(l)) in
+            let mag = row_mag ip.ip_A.(l) ax +. fabs ip.ip_b.(l) +. s2 *. row_mag ip.ip_A.(l) adx +. fabs (List.nth rp l) in
+            if fabs (Q.to_float (Q.sub a b)) > 2e-9 *. (mag +. scale) +. 1e-300 then
+              propfail "rprim-contraction" (Printf.sprintf "row=%d rprim(x')=%g (1-s)rprim(x)=%g s=%g summed=%g" l (Q.to_float a) (Q.to_float b) s2 mag)
+          done;
+          (* rdual(x + s dx, u + s du, v + s dv) = (1 - s) rdual(x, u, v) *)
+          let zu' = zq_vec u' and zv' = zq_vec v' in
+          let rdual_at zxx zuu zvv i =
+            let t = ref zc.(i) in
+            if Array.length zQ > 0 then t := Q.add !t (zdot zQ.(i) zxx);
+            for k = 0 to m - 1 do t := Q.add !t (Q.mul zG.(k).(i) zuu.(k)) done;
+            for l = 0 to p - 1 do t := Q.add !t (Q.mul zA.(l).(i) zvv.(l)) done; !t in
+          for i = 0 to n - 1 do
+            let a = rdual_at zx' zu' zv' i and b = Q.mul one_s (rdual_at zx zu zv i) in
+            let mag = rdm_b.(i) +. s2 *. (top_mag.(i) +. (let s = ref 0.0 in for k = 0 to m - 1 do s := !s +. fabs (ip.ip_G.(k).(i) *. adu.(k)) *. (1.0 +. kap.(k)) done; !s)) in
+            if fabs (Q.to_float (Q.sub a b)) > 4e-9 *. (mag +. scale) +. 1e-300 then
+              propfail "rdual-contraction" (Printf.sprintf "row=%d rdual(x',u',v')=%g (1-s)rdual(x,u,v)=%g s=%g summed=%g" i (Q.to_float a) (Q.to_float b) s2 mag)
+          done
+        end
+      end;
+      (* ---- (c3) the acceptance tests, re-evaluated on the recorded doubles ------------------------------------------------ *)
+      if exitk = 0 || exitk = 4 || exitk = 5 || exitk = 3 then begin
+        if not (s2 > 0.0 && s2 <= s1 && s1 <= sinit && sinit <= s0) then propfail "step-order" (Printf.sprintf "s0=%h s0*smax=%h s1=%h s2=%h" s0 sinit s1 s2);
+        (* stage 1 is the guard of strict feasibility: max(G (x + s1 dx) - h) < 0 *)
+        let zs1 = Q.of_float s1 in
+        let zt = Array.mapi (fun j t -> Q.add t (Q.mul zs1 zdx.(j))) zx in
+        Array.iteri (fun k t -> if Q.sign t >= 0 && fabs (Q.to_float t) > 1e-12 *. (gt.(k) +. s1 *. gdx_mag.(k)) then
+                        propfail "stage1-guard" (Printf.sprintf "row=%d (G (x + s1 dx) - h)=%g s1=%h" k (Q.to_float t) s1)) (zgxh zt)
+      end;
+      if (exitk = 0 || exitk = 5) && after_fin then begin
+        (* stage 2 exits without exhaustion only with residual <= (1 - alpha s) r0: the same doubles, the same expression *)
+        if not (res' <= (1.0 -. alpha *. s2) *. r0) then
+          propfail "stage2-accept" (Printf.sprintf "residual'=%h > (1 - alpha s) r0=%h (alpha=%h s=%h r0=%h)" res' ((1.0 -. alpha *. s2) *. r0) alpha s2 r0)
+      end;
+      if exitk = 3 && it2 <> ip.ip_maxls then propfail "stage2-exhaustion" (Printf.sprintf "exit 3 after %d of %d trials" it2 ip.ip_maxls);
+      if exitk = 2 && it1 <> ip.ip_maxls then propfail "stage1-exhaustion" (Printf.sprintf "exit 2 after %d of %d trials" it1 ip.ip_maxls);
+      (* ---- (b) step lengths: bit-exact mirror of the scalar code, and the model ---------------------------------------------- *)
+      let f_sinit = s0 *. f_make_smax au adu in
+      incr it_bits;
+      if Int64.bits_of_float f_sinit <> Int64.bits_of_float sinit then mism "sinit-bits" (Printf.sprintf "s0*make_smax(u,du): mirror=%h impl=%h" f_sinit sinit);
+      let ans = { a_dx = qdx; a_dv = qdv; a_stable = true; a_finite = (exitk <> 4) } in
+      let ((km, st'), tr) = iter_core prog ip.ip_mufx par st ans qdu in
+      let km = B.int_of_big_int km in
+      if not (rel_close tr.t_sinit sinit 0x1p-50) then mism "sinit" (Printf.sprintf "model=%h impl=%h" (float_of_q tr.t_sinit) sinit);
+      let k1m = B.int_of_big_int tr.t_k1 and k2m = B.int_of_big_int tr.t_k2 in
+      let stop = ref false in
+      (* stage 1 *)
+      if k1m <> it1 then begin
+        stop := true;
+        let j = min k1m it1 in
+        let sj = List.fold_left (fun s _ -> s *. beta) sinit (List.init j (fun i -> i)) in
+        let mgn = gxh prog (trial qx qdx (q_of_float sj)) in
+        let band = ref false in
+        List.iteri (fun k t -> if fabs (float_of_q t) <= 1e-12 *. (gt.(k) +. sj *. gdx_mag.(k)) then band := true) mgn;
+        if !band then amb "stage1" else mism "stage1-count" (Printf.sprintf "model breaks after %d shrinks, impl after %d (max_lsearch_iters=%d) s0*smax=%h beta=%h" k1m it1 ip.ip_maxls sinit beta)
+      end else begin
+        incr it_exact_counts;
+        if not (rel_close tr.t_s1 s1 (float_of_int (it1 + 4) *. 0x1p-51)) then mism "s1" (Printf.sprintf "model=%h impl=%h after %d shrinks" (float_of_q tr.t_s1) s1 it1)
+      end;
+      if not !stop && (km = 2 || exitk = 2) then begin
+        stop := true;
+        if km <> exitk then mism "exit-kind" (Printf.sprintf "model=%d impl=%d" km exitk)
+      end;
+      let mags_at (qxx : q list) (quu : q list) (qvv : q list) =
+        mag_resid ip (Array.of_list (List.map float_of_q qxx)) (Array.of_list (List.map float_of_q quu)) (Array.of_list (List.map float_of_q qvv)) miu in
+      (* stage 2 *)
+      if not !stop then begin
+        if not (rel_close (q_of_float (r0 *. r0)) (float_of_q tr.t_r0sq) 1e-12) then mism "r0" (Printf.sprintf "model=%h impl=%h" (qsqrt_f tr.t_r0sq) r0);
+        if k2m <> it2 then begin
+          stop := true;
+          let j = min k2m it2 in
+          let sj = List.fold_left (fun s _ -> s *. beta) s1 (List.init j (fun i -> i)) in
+          let qs = q_of_float sj in
+          let tx = trial qx qdx qs and tu = trial qu qdu qs and tv = trial qv qdv qs in
+          let rj = upd prog ip.ip_mufx par.p_miu tx tu tv res_before in
+          let mg = mag_total (mags_at tx tu tv) in
+          let margin = qsqrt_f (res2 rj) -. (1.0 -. alpha *. sj) *. r0 in
+          if fabs margin <= 1e-12 *. (mg +. r0) then amb "stage2"
+          else mism "stage2-count" (Printf.sprintf "model accepts after %d shrinks, impl after %d (max_lsearch_iters=%d): residual - (1 - alpha s) r0 = %g at s=%h, r0=%h alpha=%h" k2m it2 ip.ip_maxls margin sj r0 alpha)
+        end else begin
+          incr it_exact_counts;
+          if not (rel_close tr.t_s2 s2 (float_of_int (it1 + it2 + 6) *. 0x1p-51)) then mism "s2" (Printf.sprintf "model=%h impl=%h" (float_of_q tr.t_s2) s2)
+        end
+      end;
+      let st_after = ref None in
+      if not !stop then begin
+        let res_m = st'.i_res in
+        let cmp_after tag =
+          let xm = List.map float_of_q st'.i_x and um = List.map float_of_q st'.i_u and vm = List.map float_of_q st'.i_v in
+          ignore (xm, um, vm);
+          let mg = mags_at st'.i_x st'.i_u st'.i_v in
+          let (em, _, _, _) = mg in
+          incr compared;
+          if not (qle (qabs (res_m.s_eta -/ q_of_float eta')) (q_of_float (1e-11 *. em +. 1e-300))) then
+            mism ("eta-" ^ tag) (Printf.sprintf "model=%h impl=%h summed=%g" (float_of_q res_m.s_eta) eta' em);
+          incr compared;
+          if fabs (qsqrt_f (res2 res_m) -. res') > 1e-11 *. mag_total mg +. 1e-300 then
+            mism ("residual-" ^ tag) (Printf.sprintf "model=%h impl=%h summed=%g" (qsqrt_f (res2 res_m)) res' (mag_total mg)) in
+        if km = 3 || exitk = 3 then begin
+          if km <> exitk then mism "exit-kind" (Printf.sprintf "model=%d impl=%d" km exitk)
+          else begin
+            (* exhausted stage 2: which numbers are left in the state (last trial point or reverted)? *)
+            let sj = List.fold_left (fun s _ -> s *. beta) s1 (List.init (ip.ip_maxls - 1) (fun i -> i)) in
+            let qs = q_of_float sj in
+            let tx = trial qx qdx qs and tu = trial qu qdu qs and tv = trial qv qdv qs in
+            let rj = upd prog ip.ip_mufx par.p_miu tx tu tv res_before in
+            let mg = mag_total (mags_at tx tu tv) in
+            if fabs (qsqrt_f (res2 rj) -. r0) <= 1e-12 *. (mg +. r0) then amb "revert"
+            else begin
+              if revert_test (res2 rj) tr.t_r0sq then incr it_reverted else incr it_stale3;
+              (* the tolerance is that of the trial point when the numbers are its *)
+              let mgs = if revert_test (res2 rj) tr.t_r0sq then mags_at qx qu qv else mags_at tx tu tv in
+              let (em, _, _, _) = mgs in
+              incr compared;
+              if not (qle (qabs (res_m.s_eta -/ q_of_float eta')) (q_of_float (1e-11 *. em +. 1e-300))) then
+                mism "eta-exhausted" (Printf.sprintf "model=%h impl=%h reverted(model)=%b" (float_of_q res_m.s_eta) eta' (revert_test (res2 rj) tr.t_r0sq));
+              incr compared;
+              if fabs (qsqrt_f (res2 res_m) -. res') > 1e-11 *. mag_total mgs +. 1e-300 then
+                mism "residual-exhausted" (Printf.sprintf "model=%h impl=%h r0=%h reverted(model)=%b" (qsqrt_f (res2 res_m)) res' r0 (revert_test (res2 rj) tr.t_r0sq));
+              st_after := Some res_m
+            end
+          end
+        end else begin
+          (* accepted step: the new state, bit-exact mirror of `x += s * dx` and the model's point *)
+          incr it_bits;
+          let mirror a d = Array.mapi (fun i t -> t +. s2 *. d.(i)) a in
+          if not (mirror ax adx = ax' && mirror au adu = au' && mirror av adv = av') then mism "state-bits" (Printf.sprintf "x + s*dx is not the recorded state (s=%h)" s2);
+          cmpv "state-x" st'.i_x x' (Array.mapi (fun i t -> fabs t +. s2 *. fabs adx.(i)) ax) (float_of_int (it1 + it2 + 8) *. 0x1p-50);
+          cmpv "state-u" st'.i_u u' (Array.mapi (fun i t -> fabs t +. s2 *. fabs adu.(i)) au) (float_of_int (it1 + it2 + 8) *. 0x1p-50);
+          cmpv "state-v" st'.i_v v' (Array.mapi (fun i t -> fabs t +. s2 *. fabs adv.(i)) av) (float_of_int (it1 + it2 + 8) *. 0x1p-50);
+          cmp_after "after";
+          st_after := Some res_m;
+          if exitk = 4 then (if km <> 4 then mism "exit-kind" (Printf.sprintf "model=%d impl=4" km))
+          else if km <> exitk then begin
+            (* 0 against 5: the `very precise convergence` test; is one of the three differences within rounding of epsilon0? *)
+            let (em', rdm', rpm', _) = mags_at st'.i_x st'.i_u st'.i_v in
+            let e0 = ip.ip_eps0 in
+            let d1 = float_of_q (eta_before -/ res_m.s_eta) and d2 = fnorm2 (Array.of_list rd) -. qsqrt_f (sumsq res_m.s_rdual)
+            and d3 = fnorm2 (Array.of_list rp) -. qsqrt_f (sumsq res_m.s_rprim) in
+            let band d mag = fabs (d -. e0) <= 1e-13 *. mag in
+            if band d1 (em_b +. em') || band d2 (fnorm2 rdm_b +. fnorm2 rdm') || band d3 (fnorm2 rpm_b +. fnorm2 rpm') then amb "precise"
+            else mism "exit-kind" (Printf.sprintf "model=%d impl=%d eps0=%g d_eta=%g d_rdual=%g d_rprim=%g" km exitk e0 d1 d2 d3)
+          end
+        end;
+        (* status after the pass *)
+        if !st_after <> None && km = exitk then begin
+          incr it_full;
+          let sm = B.int_of_big_int st'.i_status in
+          if km = 0 || km = 4 then (if sm <> status' then mism "status" (Printf.sprintf "model=%d impl=%d exit=%d" sm status' km))
+          else begin
+            let xf = Array.of_list (List.map float_of_q st'.i_x) in
+            let r = st'.i_res in
+            if done_ambiguous ip xf (float_of_q r.s_eta) (qsqrt_f (sumsq r.s_rdual)) (qsqrt_f (sumsq r.s_rprim)) (mags_at st'.i_x st'.i_u st'.i_v) then amb "status"
+            else begin incr it_status_dec; if sm <> status' then mism "status" (Printf.sprintf "model=%d impl=%d exit=%d eta=%g |rdual|=%g |rprim|=%g" sm status' km (float_of_q r.s_eta) (qsqrt_f (sumsq r.s_rdual)) (qsqrt_f (sumsq r.s_rprim))) end
+          end
+        end
+      end;
+      last_event := Some (exitk, x', u', v', eta', status', !st_after)
+    end;
+    prev_eta := (if Float.is_finite eta' then Some (q_of_float eta') else None);
+    if exitk = 1 || not dir_fin then last_event := Some (exitk, x', u', v', eta', status', None)
+  end;
+  prev_status := status'
+
+let handle_ifinal line =
+  (* no IPROG: solve_with_inequality returned before the loop (start not strictly feasible) *)
+  match !cur_prog with None -> incr it_rejected | Some ip ->
+  let lp = Array.of_list (split_str " | " line) in
+  if Array.length lp < 7 then failwith "bad IFINAL line";
+  let toks = split ' ' (String.trim lp.(0)) in
+  if List.nth toks 1 <> ip.ip_id then failwith "IFINAL id does not match IPROG";
+  let id = ip.ip_id ^ "/final" in
+  let status = int_of_string (List.nth toks 2) and iters = int_of_string (List.nth toks 3) in
+  let eta = parse_float (List.nth toks 5) in
+  let x = fvec lp.(1) and u = fvec lp.(2) and v = fvec lp.(3) and rd = fvec lp.(4) and rp = fvec lp.(5) and rc = fvec lp.(6) in
+  incr it_final;
+  (match !last_event with
+   | None -> ()
+   | Some (exitk, x', u', v', eta', status', res_m) ->
+     let same a b = List.length a = List.length b && List.for_all2 (fun s t -> Int64.bits_of_float s = Int64.bits_of_float t) a b in
+     if not (same x x' && same u u' && same v v' && Int64.bits_of_float eta = Int64.bits_of_float eta' && status = status') then
+       report "MISMATCH" "iter-final-state" id (Printf.sprintf "the returned state is not the state after the last pass (exit=%d status %d/%d)" exitk status status');
+     if exitk = 0 && not (iters = ip.ip_maxit && status = 0) then
+       report "MISMATCH" "iter-loop-end" id (Printf.sprintf "the loop ended after a pass with exit 0: iters=%d max_iters=%d status=%d" iters ip.ip_maxit status);
+     if List.for_all finite_vec [x; u; v; rd; rp; rc] && Float.is_finite eta && List.length rd = ip.ip_n && List.length rp = ip.ip_p && List.length rc = ip.ip_m then begin
+       let ax = Array.of_list x and au = Array.of_list u and av = Array.of_list v in
+       (* the residual fields left in the returned state are those the model leaves (last trial point / reverted / new point) *)
+       (match res_m with
+        | Some r when exitk = 0 || exitk = 5 || exitk = 4 ->
+          let (_, rdm, rpm, rcm) = mag_resid ip ax au av 1.0 in
+          let cmp what a b mag = List.iteri (fun i (am, bi) -> incr compared;
+                                              if not (qle (qabs (am -/ q_of_float bi)) (q_of_float (1e-11 *. mag.(i) +. 1e-300))) then
+                                                report "MISMATCH" ("iter-final-" ^ what) id (Printf.sprintf "[%d] model=%h impl=%h" i (float_of_q am) bi)) (List.combine a b) in
+          if List.length r.s_rdual = ip.ip_n && List.length r.s_rprim = ip.ip_p then begin cmp "rdual" r.s_rdual rd rdm; cmp "rprim" r.s_rprim rp rpm end;
+          ignore rcm
+        | _ -> ());
+       (* done() re-taken on the numbers stored in the returned state *)
+       if exitk = 1 || exitk = 2 || exitk = 3 || exitk = 5 then begin
+         let nrd = fnorm2 (Array.of_list rd) and nrp = fnorm2 (Array.of_list rp) in
+         if done_ambiguous ip ax eta nrd nrp (mag_resid ip ax au av 1.0) then amb "final-status"
+         else begin
+           incr it_status_dec;
+           let sm = B.int_of_big_int (model_done ip.ip_prog (qvec x) (q_of_float eta) (qvec rd) (qvec rp) (q_of_float ip.ip_eps) !eps2) in
+           if sm <> status then report "MISMATCH" "iter-final-status" id (Printf.sprintf "done() on the stored numbers: model=%d impl=%d eta=%g |rdual|=%g |rprim|=%g" sm status eta nrd nrp)
+         end
+       end
+     end);
+  cur_prog := None
+
 let () =
   (try
      while true do
@@ -428,6 +927,12 @@ let () =
           | Failure m -> report "MISMATCH" "driver-error" "?" m
           | Invalid_argument m -> report "MISMATCH" "driver-error" "?" (m ^ " :: " ^ String.sub line 0 (min 80 (String.length line)))
           | Not_found -> report "MISMATCH" "driver-error" "?" "Not_found")
+       else if String.length line > 6 && (String.sub line 0 5 = "ITER " || String.sub line 0 6 = "IPROG " || String.sub line 0 7 = "IFINAL ") then
+         (let h = if String.sub line 0 5 = "ITER " then handle_iter else if String.sub line 0 6 = "IPROG " then handle_iprog else handle_ifinal in
+          try h line with
+          | Failure m -> report "MISMATCH" "driver-error" "?" (m ^ " :: " ^ String.sub line 0 (min 80 (String.length line)))
+          | Invalid_argument m -> report "MISMATCH" "driver-error" "?" (m ^ " :: " ^ String.sub line 0 (min 80 (String.length line)))
+          | Not_found -> report "MISMATCH" "driver-error" "?" ("Not_found :: " ^ String.sub line 0 (min 80 (String.length line))))
        else if String.length line > 7 && String.sub line 0 7 = "REDUCE " then
          (try handle_reduce line with
           | Failure m -> report "MISMATCH" "driver-error" "?" (m ^ " :: " ^ String.sub line 0 (min 80 (String.length line)))
@@ -438,4 +943,11 @@ let () =
   let ranks = String.concat "," (List.sort compare (Hashtbl.fold (fun k v acc -> Printf.sprintf "%d:%d" k v :: acc) red_ranks [])) in
   Printf.printf "MODEL-DONE checked=%d mismatches=%d compared=%d decisions=%d ambiguous=%d kkt_verified=%d stale_states=%d converged_with_negative_u=%d returned_states_u_checked=%d reduce_systems_checked=%d reduce_exact_factorisations=%d reduce_rows_removed=%d reduce_full_rank=%d reduce_empty=%d reduce_inconsistent=%d reduce_exact_rowspace=%d reduce_ranks=%s\n"
     !total !mism !compared !decisions !ambiguous !kkt_ok !stale !neg_u !u_checked !red_total !red_exact !red_reduced !red_full !red_empty !red_incons !red_exact_rowspace
-    (if ranks = "" then "-" else ranks)
+    (if ranks = "" then "-" else ranks);
+  if !it_solves > 0 || !it_events > 0 then begin
+    let ambk = String.concat "," (List.sort compare (Hashtbl.fold (fun k v acc -> Printf.sprintf "%s:%d" k v :: acc) it_amb_kinds [])) in
+    Printf.printf "ITER-DONE solves=%d events=%d mismatches=%d systems_solved=%d systems_inaccurate_singular_block=%d systems_regular=%d worst_system_ratio=%g full_passes_compared=%d exact_stage_counts=%d bit_exact_mirrors=%d status_decisions=%d ambiguous=%d ambiguous_kinds=%s skipped=%d starts_rejected=%d underflow_events=%d boundary_events=%d over_budget_events=%d propfails=%d strict_feasibility_at_rounding=%d stage2_exhausted_reverted=%d stage2_exhausted_stale=%d starts=%d finals=%d exits=%s\n"
+      !it_solves !it_events !mism !it_sys_ok !it_sys_bad !it_sys_regular !it_worst_sys !it_full !it_exact_counts !it_bits !it_status_dec !it_ambig (if ambk = "" then "-" else ambk) !it_skipped !it_rejected !it_underflow !it_boundary !it_budget !it_prop
+      !it_rounding_feas !it_reverted !it_stale3 !it_start !it_final
+      (String.concat "," (Array.to_list (Array.mapi (fun i c -> Printf.sprintf "%d:%d" i c) it_exits)))
+  end
